@@ -442,6 +442,11 @@ def solve(A, b, overwrite_a=False, overwrite_b=False, check_finite=True, assume_
     return x
 
 
+def _conj_t(A):
+    from .npshim import shim
+    return asobj(shim.conj(asobj(A))).T.copy()
+
+
 def lu_factor(A, overwrite_a=False, check_finite=True):
     A0 = A
     A = asobj(A)
@@ -451,11 +456,12 @@ def lu_factor(A, overwrite_a=False, check_finite=True):
 
 
 def lu_solve(lu, b, trans=0, overwrite_b=False, check_finite=True):
-    assert lu[0] == 'LU' and trans == 0
+    assert lu[0] == 'LU' and trans in (0, 1, 2)
     b0 = b
     b = asobj(b)
-    x = policy().solve(lu[1], b)
-    _log('solve', A=lu[1], b=b.copy(), x=x, contract=['A x = b', 'A nonsingular'], via='lu')
+    Aeff = lu[1] if trans == 0 else (lu[1].T.copy() if trans == 1 else _conj_t(lu[1]))        # trans: 0 A x = b, 1 A^T x = b, 2 A^H x = b
+    x = policy().solve(Aeff, b)
+    _log('solve', A=Aeff, b=b.copy(), x=x, contract=['A x = b', 'A nonsingular'], via='lu', trans=trans)
     _maybe_overwrite(b0, overwrite_b, 'lu_solve_b')
     return x
 
